@@ -70,7 +70,7 @@ def verify_contract(repo: str, con: Any, contracts_by_target: dict[str, Any], mo
         result["loops"] = len(loop_nodes)
         small = mode == "small"
         interp = Interp(world, ctx, contracts_by_target, stubs=con.__dict__.get("stubs"),
-                        unroll=3 if small else con.__dict__.get("unroll", 6))
+                        unroll=4 if small else con.__dict__.get("unroll", 6))
         interp.open_findings = open_findings
         interp.spec_fallback_module = file
         interp.abstract_sort = bool(con.__dict__.get("abstract_sort", False))
@@ -144,7 +144,7 @@ def verify_contract(repo: str, con: Any, contracts_by_target: dict[str, Any], mo
             if small:
                 for sym_name, term in list(ctx.input_symbols.items()):
                     if sym_name.startswith("len("):
-                        ctx.assume(term <= 2)
+                        ctx.assume(term <= 3)
             if not ctx.feasible(z3.BoolVal(True)):
                 raise PathPruned()
             old = ObjV("_Old", {name: snapshot(value) for name, value in args.items()})
